@@ -136,6 +136,17 @@ def replay_inputs(contract, inputs):
                 rep["failed"].append(f"{prefix}.{k}")
             elif t is None:
                 rep["undetermined"].append(f"{prefix}.{k}")
+        if kind == "return" and rep["failed"] and hasattr(contract, "same_meaning") \
+                and all(f.startswith("post.") for f in rep["failed"]):
+            # the postcondition pins a representation (an AST); the property speaks about what it denotes.  A result
+            # that differs in representation only is not a counterexample to the property (see contracts/c16_meaning.py)
+            try:
+                same = contract.same_meaning(inputs, out)
+            except Exception:     # noqa
+                same = False
+            if same:
+                rep["representation_only"] = rep["failed"]
+                rep["failed"] = []
     except Exception as e:      # noqa
         rep["error"] = "".join(traceback.format_exception_only(type(e), e)).strip() + " | " + traceback.format_exc()[-1500:]
     return rep
